@@ -24,7 +24,7 @@ TStart(o) == Start(o) /\ Forget({o})
 TAcquire(o, r) == Acquire(o, r) /\ UNCHANGED tvars
 TRelease(o, r) == Release(o, r) /\ UNCHANGED tvars
 TEnd(o, how) == End(o, how) /\ Forget({o})
-Quiet == UNCHANGED <<owner, hold, active, acquired, blockedOn, edges, order>>
+Quiet == UNCHANGED <<owner, hold, active, acquired, blockedOn, edges, order, pri, lockpri>>
 MarkFlag(o) == /\ o \in active /\ Quiet /\ UNCHANGED <<phase, age, page>>
                /\ flags' = [flags EXCEPT ![o] = IF phase[o] \in Gated THEN @ \cup {phase[o]} ELSE @]
                /\ Out("mark", o, NoOne, "none")
@@ -45,6 +45,8 @@ EndSet(K) ==
   LET mine == {r \in Res : owner[r] \in K} IN
   /\ owner' = [r \in Res |-> IF r \in mine THEN NoOne ELSE owner[r]]
   /\ hold'  = [r \in Res |-> IF r \in mine THEN 0 ELSE hold[r]]
+  /\ lockpri' = [r \in Res |-> IF r \in mine THEN 0 ELSE lockpri[r]]
+  /\ pri' = [o \in Ops |-> IF o \in K THEN Base(o) ELSE pri[o]]
   /\ blockedOn' = [x \in Ops |-> IF x \in K THEN {} ELSE blockedOn[x] \ mine]
   /\ edges' = {e \in edges : e[1] \notin K /\ e[2] \notin K /\ e[3] \notin mine}
   /\ active' = active \ K /\ acquired' = [o \in Ops |-> IF o \in K THEN {} ELSE acquired[o]]
@@ -61,7 +63,7 @@ TNext == \/ \E o \in Ops : TStart(o) \/ TEnd(o, "complete") \/ TEnd(o, "abort") 
                            \/ \E r \in Res : TAcquire(o, r) \/ TRelease(o, r)
          \/ Tick \/ TWatchdog
 TSpec == TInit /\ [][TNext]_allvars
-TView == <<owner, hold, active, acquired, blockedOn, edges, order, phase, flags, age, page>>
+TView == <<owner, hold, active, acquired, blockedOn, edges, order, pri, lockpri, phase, flags, age, page>>
 (* P-layer: the exit clauses of C14 for every way the watchdog ends an operation *)
 NoOrphans == \A o \in Ops \ active : \A r \in Res : owner[r] # o
 LateGone == [][obs'.op = "watchdog" => (Late \cap active' = {} /\ \A o \in Late : \A r \in Res : owner'[r] # o)]_allvars
